@@ -9,5 +9,9 @@ open Gen.RunLoop
 
 theorem C13.gen_stream_body_eq_batch_body : computeStreamLoopBody = computeLoopBody := rfl
 
-example : computeStreamLoopBody { uuids := [1], required := [] } [] [] [] false [] =
-    .ok ([], [1], [1], ["drop_data_for_finished_cfws", "execute_step"]) := by rfl
+example : computeStreamLoopBody { uuids := [1], required := [] } [] [] [] false false false [] =
+    .ok ([], [1], [1], false, ["drop_data_for_finished_cfws", "execute_step"]) := by rfl
+
+/-- a finished feature-group step is collected once and then asked to drop, in that order, by either loop -/
+example : computeStreamLoopBody { uuids := [1], required := [] } [] [1] [1] false true false [] =
+    .ok ([1], [1], [], true, ["drop_data_for_finished_cfws", "poll_result_queues", "get_cfw", "add_to_result_data_collection", "drop_data_if_possible"]) := by rfl
